@@ -136,7 +136,11 @@ func HarnessC03DuplexPassthrough() {
 		ctx:           context.Background(),
 		responseReady: ready,
 		response:      &http.Response{Body: io.NopCloser(src)},
+		// every call shape reads its response through this method
+		streamType: []StreamType{StreamTypeUnary, StreamTypeClient, StreamTypeServer, StreamTypeBidi}[nondetChoice("streamType", 4)],
 	}
+	// (SetError closes the request pipe: give it one)
+	d.requestBodyReader, d.requestBodyWriter = io.Pipe()
 	var got []byte
 	buf := make([]byte, 4)
 	for i := 0; i < len(data)+2; i++ {
